@@ -445,6 +445,9 @@ class Poly(meta(metaclass=PolyMeta)):
                                  else v ** other) # Avoid casting
                               for k, v in iteritems(self._data)),
                   zero=self.zero)
+    if other < 0: # The result wouldn't be a Poly (1 / self, then powered)
+      raise NotImplementedError("Can't power general Poly instances with "
+                                "negative exponents")
     # One copy for each factor: coefficients might be Stream instances
     return reduce(operator.mul, [self.copy() for unused in
                                  [None] * (other - 1)] + [self])
